@@ -127,6 +127,9 @@ check("C04", "fault_enumeration", "nested crash-point enumeration over recorded 
 check("C29", "fault_enumeration", "exhaustive single-fault enumeration over a region map of real capsules, each faulted capsule run through the real unlock",
       "Plaintexts of 5 B, 1 MiB+1, 2 MiB and a real .mv2 (quick) / 11 sizes from 4 B to 3 MiB incl. 1 MiB-1, 1 MiB, 1 MiB+1, 2 MiB+7 and two real memories (thorough) are locked by the real lock_file; the capsule is parsed into header fields, length prefixes, ciphertext bodies and tags; the fault table is: every bit of the parsed header fields (all 512 header bits in thorough on three sizes), every (second, in quick) bit of every length prefix, 2-3 bits at first/middle/last ciphertext byte and two tag bytes of every chunk, truncation at every length 0..64, inside and after every length prefix, mid-ciphertext, before and inside each tag and at every chunk boundary, 1/3/4/5/20 appended bytes, every chunk swap, duplicate and drop, dropped tail chunks with the size field rewritten, five size-field values, a foreign header, four wrong passwords. Oracle: unlock(lock(f)) = f on both output-path conventions; every modified capsule -> Err; a file at the output path never differs from f.",
       "Ciphertext flips are sampled by position inside a chunk (AES-GCM treats every ciphertext byte alike); header, prefixes and structure are exhaustive. lock_file's salt/nonce come from the OS RNG; the table is positional, so it is the same on every run.", "DESIGN.md §3 C29", "fault")
+check("C22", "fault_enumeration", "exhaustive enumeration of a finite fault table over region maps of real seed files, every faulted file run through the real open/read/verify/doctor entry points in limited subprocesses",
+      "Seeds written by the real API (update+delete+embeddings history; a file with acknowledged records still pending in the embedded log). Region map from the public codecs (header fields, WAL, TOC, footer, every payload, every index segment named by a manifest). Table (997 cases, both tiers): substitution of every header u64 field by 10 boundary values, magic/version bytes, footer toc_len/generation, leading TOC varints, first WAL record header fields, every TOC length/offset/count field rewritten with CONSISTENT checksums (so the value reaches the code that uses it), leading bytes of every index segment, truncation at every region edge +-1 and at a stride inside header/TOC/footer, zeroing of every region, splices of two seeds at every region boundary, structural bit flips at a stride, and seven raw non-files. Every case: open, open_read_only, the full read battery on any handle obtained (frame table, payloads, text, timeline, search for every stored word, vector search), verify(deep), doctor_plan, doctor. Oracle: no panic, no abort, no allocation failure, no hang (wall limit), in a worker with RLIMIT_AS 3 GiB and RLIMIT_FSIZE 128 MiB.",
+      "Reduced strength: 'arbitrary bytes' is decided for this finite single-fault table only. The larger tables in the source (MC_FAULT_MEDIUM ~12 700 cases, MC_FAULT_DEEP) are not registered because their results have not been triaged; both registered tiers run the same table. Quick takes ~95 s on 16 cores.", "DESIGN.md §2.3, §3 C22", "fault")
 check("C17", "model_checking", "explicit-state exploration of the lock protocol on the real code, second writer on separate descriptors and in a second process",
       "Writer A (a real Memvid handle) takes every sequence of <= 3 (quick) / <= 4 (thorough) steps over {put, commit, put+commit, vacuum, ticket, enable_vec, close+open, doctor, commit_skip_indexes+finalize}; after create and after every step writer B probes the exclusive lock on its own open file description (all interleavings of B's probe with A's steps). Invariant: while A is alive B cannot acquire; after A is dropped B can. On a violation the trace is extended to its consequence with a real second process that opens, puts and commits while A does the same, and the frames are counted after reopen.",
       "flock conflicts are per open file description, so a second descriptor in the same process is equivalent to a second process for the lock; the consequence run uses a real process. The TLA+-model formulation of the quantifier is replaced by exploring the implementation itself.", "DESIGN.md §3 C17", "lockmc")
